@@ -127,7 +127,8 @@ def worker_main(argv):
                     rec["harness_error"] = str(e)[-2000:]
                 except Exception:
                     rec["harness_error"] = "exception in harness:\n" + traceback.format_exc()[-3000:]
-                out.write(canon(rec) + "\n")
+                # insertion order is part of a case (the order of sites is the order they are rendered in): never sort keys here
+                out.write(json.dumps(rec, ensure_ascii=True) + "\n")
                 out.flush()
     finally:
         shutil.rmtree(sc, ignore_errors=True)
@@ -302,11 +303,13 @@ def check(pid, tier="quick", seed=None, jobs=None, count=None, write_evidence=Tr
                 continue
             n_viol += 1
             case = r.get("case") or mod.generate(r["seed"], tier)
-            mcase, used = minimise(mod, case, clause, sig, sc, budget=int(os.environ.get("VERIF_MIN_BUDGET", 120)))
+            # minimise the first few signatures fully; further ones get a small budget (their replay file is still verified)
+            budget = int(os.environ.get("VERIF_MIN_BUDGET", 120)) if n_viol <= 3 else 15
+            mcase, used = minimise(mod, case, clause, sig, sc, budget=budget)
             path = os.path.join(outdir, f"{pid}-{digest([clause, sig])[:10]}-seed{r['seed']}.replay.json")
             with open(path, "w", encoding="utf-8") as f:
                 json.dump({"property": pid, "seed": r["seed"], "verif_seed": seed, "expect": {"clause": clause, "sig": sig},
-                           "detail": v.get("detail", ""), "minimise_executions": used, "case": mcase}, f, indent=1, sort_keys=True)
+                           "detail": v.get("detail", ""), "minimise_executions": used, "case": mcase}, f, indent=1)
             ok, txt = replay_in_fresh_process(path)
             if not ok:
                 herrs.append(f"violation {clause}/{sig} (seed {r['seed']}) did not reproduce from its replay file {path}:\n{txt[-1500:]}")
@@ -360,10 +363,11 @@ def check(pid, tier="quick", seed=None, jobs=None, count=None, write_evidence=Tr
     print(f"{pid}: runs={evaluations} sessions={sessions} distinct={len(abstract)} violations={n_viol} known={len(known_lines)} "
           f"harness_errors={len(herrs)} wall={wall:.1f}s", flush=True)
     if herrs:
-        print("HARNESS-ERROR (the check is broken, not the property):")
+        print("HARNESS-ERROR (a problem of the simulator, not a verdict about the property):")
         for h in herrs[:5]:
             print("  " + h.replace("\n", "\n  ")[:3000])
-        return 2, digests
+        if not n_viol:
+            return 2, digests
     if evaluations == 0:
         print("HARNESS-ERROR: nothing was executed")
         return 2, digests
